@@ -491,6 +491,15 @@ func concurrent(r *hx.Run, q *ctrl.Session, rnd *hx.Rand) {
 			ms = append(ms, m)
 		}
 	}
+	// at most two sessions per manifest (who gets a manifest lock third is not decided by the schedule)
+	occ := map[string]int{}
+	var kept [][]int
+	for _, m := range ms {
+		if occ[ctrl.LayersString(m)]++; occ[ctrl.LayersString(m)] <= 2 {
+			kept = append(kept, m)
+		}
+	}
+	ms = kept
 	if rnd.Chance(1, 3) {
 		q.Index(base, ctrl.Script{}, false) // some layers are already scanned
 	}
@@ -525,9 +534,14 @@ func concurrent(r *hx.Run, q *ctrl.Session, rnd *hx.Rand) {
 	r.Count(fmt.Sprintf("concurrent.sessions=%d", len(ms)))
 	anyFault := false
 	clobbered := map[string]bool{}
+	okBefore := map[string]bool{}
 	for _, d := range out {
-		if d.Faulted && pre[ctrl.LayersString(d.Layers)] {
-			clobbered[ctrl.LayersString(d.Layers)] = true
+		k := ctrl.LayersString(d.Layers)
+		if d.Faulted && (pre[k] || okBefore[k]) {
+			clobbered[k] = true
+		}
+		if !d.Faulted {
+			okBefore[k] = true // sessions of one manifest run in this order (the manifest lock)
 		}
 	}
 	for _, d := range out {
